@@ -357,6 +357,30 @@ pub fn check_file(rows: &[Row], crlf: bool, final_newline: bool, header: &str, d
             }
         }
     }
+    // other ways of consuming the iterator must deliver the same rows: nth / skip / step_by / last / count on a fresh parser
+    let show = |r: &Result<PrecisDerivedProperty, precis_tools::Error>| match r {
+        Ok(p) => format!("Ok({p:?})"),
+        Err(e) => format!("Err(line {:?})", e.line()),
+    };
+    let fresh = || -> CsvLineParser<std::fs::File, PrecisDerivedProperty> { CsvLineParser::from_path(&path).expect("open") };
+    let n = items.len();
+    let k = (hash64(&(rows.len(), crlf, final_newline, header.len())) as usize) % (n + 2);
+    l.evals_n(5);
+    let probes: Vec<(String, Option<String>, Option<String>)> = guard(|| {
+        vec![
+            (format!("nth({k}) as the first call"), fresh().nth(k).as_ref().map(show), items.get(k).map(show)),
+            (format!("skip({k}).next()"), fresh().skip(k).next().as_ref().map(show), items.get(k).map(show)),
+            ("last()".to_string(), fresh().last().as_ref().map(show), items.last().map(show)),
+            ("count()".to_string(), Some(fresh().count().to_string()), Some(n.to_string())),
+            ("step_by(2).nth(1)".to_string(), fresh().step_by(2).nth(1).as_ref().map(show), items.get(2).map(show)),
+        ]
+    })
+    .map_err(|p| Violation::new(case(), "no panic", format!("panic: {p}")))?;
+    for (what, got, want) in probes {
+        if got != want {
+            return Err(Violation::new(case(), format!("{what} delivers the same row as sequential iteration: {want:?}"), format!("{got:?}")));
+        }
+    }
     if rows.len() >= 2 {
         l.nt(hash64(&(rows, crlf, final_newline)));
         l.label(if rows.iter().any(|r| !r.well_formed()) { "file_with_malformed_rows" } else { "file_all_well_formed" });
@@ -402,7 +426,8 @@ pub fn run(run: &Run) {
          (commas, quotes, non-ASCII, empty); malformed rows by construction: 0/1/2 fields only, 16 bad property spellings (typo, lower case, dangling or \
          leading 'or', unknown member, 'and', a valid single/pair with junk or a third member before or after it), 16 bad code point spellings (empty, non-hex, \
          > 10FFFF, dangling/doubled/tripled '-', blank inside, '..', 'U+', '0x', junk prefix/suffix); whole files \
-         (header + 0..12 rows, and big files of 100..600 rows with descriptions up to 300 characters; LF or CRLF, with/without final newline) written under /verif/work and read through CsvLineParser::from_path; every \
+         (header + 0..12 rows, and big files of 100..600 rows with descriptions up to 300 characters; LF or CRLF, with/without final newline; files with single lines of 4 KiB .. 300 KB) written under /verif/work and read through \
+         CsvLineParser::from_path by sequential iteration AND by nth/skip/step_by/last/count on a fresh parser; every \
          property-name string of the 7 names and near-misses; the real IANA file against my own CSV reader. Deliberately not asserted either way: \
          lower-case or sign-prefixed hex, over-long zero padding, reversed ranges. Oracle: round trip against the generator's structured row (same code \
          points, property/pair, description up to the terminator; file order; header skipped; error with line number k for a malformed row on file line k; \
@@ -497,6 +522,38 @@ pub fn run(run: &Run) {
             check_file(&rows, *crlf, *fin, "Codepoint,Property,Description", &dir, l)
         },
     );
+    // huge lines: descriptions around the usual buffer / limit sizes, followed by normal and malformed rows
+    let base4 = base.clone();
+    run.par("huge_lines", true, |tid, n, l| {
+        let sizes = [4095usize, 4096, 4097, 8190, 8191, 8192, 8193, 16384, 65534, 65535, 65536, 65537, 70000, 131071, 131073, 300000];
+        for (i, sz) in sizes.iter().enumerate() {
+            if i % n != tid {
+                continue;
+            }
+            let dir = base4.join(format!("h{tid}"));
+            std::fs::create_dir_all(&dir).expect("mkdir work");
+            for unit in ["x", "a,b ", "\u{e9}", "\u{10428},"] {
+                let desc: String = unit.repeat(sz / unit.len() + 1);
+                let mk = |start: u32, mal: Mal, desc: &str| Row { start, end: None, width: 4, p1: 0, p2: None, desc: desc.to_string(), mal };
+                let rows = vec![
+                    mk(0x41, Mal::None, "before"),
+                    Row { start: 0xf900, end: Some(0xfaff), width: 4, p1: 5, p2: Some((1, 1, 1)), desc: desc.clone(), mal: Mal::None },
+                    mk(0x42, Mal::None, "after"),
+                    mk(0x43, Mal::BadProp(2), "malformed after the huge line"),
+                    mk(0x44, Mal::None, &desc),
+                    mk(0x45, Mal::DropFields(2), ""),
+                ];
+                for (crlf, fin) in [(false, true), (true, false)] {
+                    l.cases += 1;
+                    if let Err(v) = check_file(&rows, crlf, fin, "Codepoint,Property,Description", &dir, l) {
+                        // keep the replay file small: report sizes instead of the text
+                        run.violate(Violation::new(json!({"op": "huge_line", "description_bytes": desc.len(), "unit": unit, "crlf": crlf, "final_newline": fin}), v.expected, v.observed.chars().take(300).collect::<String>()));
+                        return;
+                    }
+                }
+            }
+        }
+    });
     let _ = std::fs::remove_dir_all(&base);
 }
 
@@ -518,6 +575,21 @@ pub fn replay(_run: &Run, case: &Value) -> Check {
             r
         }
         Some("iana_file") => Ok(()),
+        Some("huge_line") => {
+            let unit = case["unit"].as_str().unwrap();
+            let sz = case["description_bytes"].as_u64().unwrap() as usize;
+            let desc: String = unit.repeat(sz / unit.len());
+            let rows = vec![
+                Row { start: 0x41, end: None, width: 4, p1: 0, p2: None, desc: "before".into(), mal: Mal::None },
+                Row { start: 0xf900, end: Some(0xfaff), width: 4, p1: 5, p2: Some((1, 1, 1)), desc, mal: Mal::None },
+                Row { start: 0x43, end: None, width: 4, p1: 0, p2: None, desc: "x".into(), mal: Mal::BadProp(2) },
+            ];
+            let dir = ucd::verif_dir().join("work").join(format!("c17-replay-{}", std::process::id()));
+            std::fs::create_dir_all(&dir).unwrap();
+            let r = check_file(&rows, case["crlf"].as_bool().unwrap(), case["final_newline"].as_bool().unwrap(), "Codepoint,Property,Description", &dir, &mut l);
+            let _ = std::fs::remove_dir_all(&dir);
+            r.map_err(|v| Violation::new(case.clone(), v.expected, v.observed.chars().take(300).collect::<String>()))
+        }
         Some("line_text") => check_line_text(&jget_str(case, "line").unwrap(), &mut l),
         _ => panic!("unknown C17 case"),
     }
